@@ -122,7 +122,8 @@ def mutate_obs(r, obs):
 
 def mutate_json(r, meta):
     m = copy.deepcopy(meta)
-    ops = ["wrong-type", "huge", "deep", "deep-array", "drop-ovni", "cpus-nokeys", "slash", "torn", "not-object", "mark-garbage", "neg", "float"]
+    ops = ["wrong-type", "huge", "deep", "deep-array", "drop-ovni", "cpus-nokeys", "slash", "torn", "not-object", "mark-garbage", "neg", "float",
+           "other-part"]
     k = r.choice(ops)
     o = m.get("ovni", {})
     if k == "wrong-type":
@@ -147,6 +148,9 @@ def mutate_json(r, meta):
         o["mark"] = r.choice([{"x": {}}, {"1": {}}, {"1": {"title": 3}}, {"1": {"title": "t", "chan_type": "weird"}},
                               {"1": {"title": "t", "chan_type": "single", "labels": {"a": "b"}}},
                               {"1": {"title": "t", "chan_type": "single", "labels": {"1": 3}}}, {"200": {"title": "t", "chan_type": "stack"}}, []])
+    elif k == "other-part":
+        # a stream that belongs to no thread (its events, if any, have no owner)
+        o["part"] = r.choice(["monitor", "cpu", "process", "x", "", "Thread"])
     elif k == "neg":
         o[r.choice(["tid", "pid", "app_id", "rank"])] = -5
     elif k == "float":
